@@ -825,10 +825,13 @@ class LogixDriver(CIPDriver):
             else:
                 _struct_members.append((info["type_class"](member), info["offset"]))
 
-        if (  # determine if struct is a string or not
+        if (  # determine if struct is a string or not: a DINT length followed by the characters
             data_type["attributes"] == ["LEN", "DATA"]
+            and data_type["internal_tags"]["LEN"]["data_type_name"] == "DINT"
+            and data_type["internal_tags"]["LEN"].get("offset") == 0
             and data_type["internal_tags"]["DATA"]["data_type_name"] == "SINT"
             and data_type["internal_tags"]["DATA"].get("array")
+            and data_type["internal_tags"]["DATA"].get("offset") == 4
         ):
             data_type["string"] = data_type["internal_tags"]["DATA"]["array"]
 
